@@ -260,7 +260,7 @@ def attach(scratch, attachments, contracts=()):
         if not os.path.exists(modfile):
             raise Undecided("missing contract module %s" % modfile)
         src = edits.get(p) or open(p).read()
-        src += "\n#[cfg(%s)]\n#[path = \"%s\"]\nmod %s;\n" % (cfg, modfile, modname)
+        src += "\n#[cfg(%s)]\n#[path = \"%s\"]\npub(crate) mod %s;\n" % (cfg, modfile, modname)
         edits[p] = src
     for p, src in edits.items():
         with open(p, "w") as f:
